@@ -238,6 +238,11 @@ func init() {
 			return fmt.Sprintf("%x/%x", sk.Bytes(), sk.PublicKey().Bytes())
 		}},
 		{name: "NewSchnorrPublicKeyFromECDSA/FromPoint", cost: 1755, warm: true, run: func(fx *Fixture, o *Op, c *ctx) string {
+			// also a key that nobody else holds: it becomes garbage when this
+			// operation returns
+			if tmp, terr := secec.NewPublicKey(pick(fx.pubEncs, o.A)); terr == nil {
+				_ = bitcoin.NewSchnorrPublicKeyFromECDSA(tmp)
+			}
 			a := bitcoin.NewSchnorrPublicKeyFromECDSA(pick(fx.pubs, o.A))
 			b, err := bitcoin.NewSchnorrPublicKeyFromPoint(pick(fx.points, o.B))
 			if err != nil {
@@ -477,10 +482,13 @@ func init() {
 		}},
 		// ---------------- a batch whose slices are themselves shared by the callers
 		{name: "MultiScalarMult(shared slices)", cost: 60000, warm: true, run: func(fx *Fixture, o *Op, c *ctx) string {
+			// an odd or even number of terms; the slices keep spare capacity
+			// behind the part that is passed
+			n := len(fx.msmScalars) - (o.C>>1)%2
 			if o.C%2 == 0 {
-				return own(P().MultiScalarMultVartime(fx.msmScalars, fx.msmPoints).CompressedBytes())
+				return own(P().MultiScalarMultVartime(fx.msmScalars[:n], fx.msmPoints[:n]).CompressedBytes())
 			}
-			return own(P().MultiScalarMult(fx.msmScalars, fx.msmPoints).CompressedBytes())
+			return own(P().MultiScalarMult(fx.msmScalars[:n], fx.msmPoints[:n]).CompressedBytes())
 		}},
 		// ---------------- failing entropy source in the middle of concurrent use
 		{name: "Sign(failing device)", cost: 57, warm: true, run: func(fx *Fixture, o *Op, c *ctx) string {
